@@ -826,6 +826,7 @@ func (client *client) internalClose() {
 	}
 	putBufioReader(client.bufr)
 	putBufioWriter(client.bufw)
+	client.server.removeConn(client)
 	close(client.closed)
 
 }
